@@ -15,6 +15,22 @@ typedef struct
     size_t n;
     int by_ctor;
 } smodel;
+/* independent UTF-8 encoder (the table in utf.h: 1..6 bytes, bit 31 ignored, U+0 encodes to nothing): the expected bytes of
+   a_utf_catc do not come from the library's own a_utf_encode (seeded change C06-E: U+FFFF encoded as a 4-byte overlong form) */
+static unsigned ref_utf8(uint32_t v, unsigned char *o)
+{
+    static unsigned char const lead[7] = {0, 0, 0xC0, 0xE0, 0xF0, 0xF8, 0xFC};
+    uint32_t x = v & 0x7FFFFFFFu;
+    unsigned const n = x == 0 ? 0 : x < 0x80 ? 1 : x < 0x800 ? 2 : x < 0x10000 ? 3 : x < 0x200000 ? 4 : x < 0x4000000 ? 5 : 6;
+    if (n == 1) { o[0] = (unsigned char)x; }
+    else if (n > 1)
+    {
+        for (unsigned i = n - 1; i > 0; --i) { o[i] = (unsigned char)(0x80 | (x & 0x3F)); x >>= 6; }
+        o[0] = (unsigned char)(lead[n] | x);
+    }
+    return n;
+}
+
 static smodel S[2];
 static char const *opname = "op";
 
@@ -527,10 +543,10 @@ static int l_cat1(lmodel *x, vf_rng *r, int multi)
         break;
     default:
     {
-        static uint32_t const borders[] = {0x80, 0x7FF, 0x800, 0xFFFF, 0x10000, 0x1FFFFF, 0x200000, 0x3FFFFFF, 0x4000000, 0x7FFFFFFF};
-        uint32_t cp = sel == 7 ? (uint32_t)(b & 0x7F) | (uint32_t)!(b & 0x7F) : vf_chance(r, 1, 2) ? borders[vf_below(r, 10)] : (uint32_t)(vf_u64(r) >> (33 + vf_below(r, 24)));
+        static uint32_t const borders[] = {0x80, 0x7FF, 0x800, 0xFFFE, 0xFFFF, 0x10000, 0x1FFFFF, 0x200000, 0x3FFFFFF, 0x4000000, 0x7FFFFFFF, 0x8000FFFF};
+        uint32_t cp = sel == 7 ? (uint32_t)(b & 0x7F) | (uint32_t)!(b & 0x7F) : vf_chance(r, 1, 2) ? borders[vf_below(r, 12)] : (uint32_t)(vf_u64(r) >> (33 + vf_below(r, 24)));
         lop = "utf_catc";
-        en = a_utf_encode(cp, enc);
+        en = ref_utf8(cp, enc);
         vf_log("a_utf_catc U+%X (%u bytes) (len %zu mem %zu)", cp, en, len, mem);
         rc = a_utf_catc(x->s, cp);
         if (rc != A_SUCCESS) { LFAIL("unexpected-error", "rc %d at len %zu", rc, len); return 0; }
@@ -1566,13 +1582,13 @@ static void vf_case(uint64_t c, vf_rng *r)
         case 14:
         {
             /* code point append: a_utf_encode's bytes + NUL */
-            static uint32_t const borders[] = {0, 1, 0x7F, 0x80, 0x7FF, 0x800, 0xFFFF, 0x10000, 0x1FFFFF, 0x200000, 0x3FFFFFF, 0x4000000, 0x7FFFFFFF};
-            uint32_t cp = vf_chance(r, 1, 2) ? borders[vf_below(r, 13)] : (uint32_t)(vf_u64(r) >> (33 + vf_below(r, 31)));
+            static uint32_t const borders[] = {0, 1, 0x7F, 0x80, 0x7FF, 0x800, 0xFFFE, 0xFFFF, 0x10000, 0x1FFFFF, 0x200000, 0x3FFFFFF, 0x4000000, 0x7FFFFFFF, 0x80000000u, 0x8000FFFFu, 0xFFFFFFFFu};
+            uint32_t cp = vf_chance(r, 1, 2) ? borders[vf_below(r, 17)] : (uint32_t)(vf_u64(r) >> (33 + vf_below(r, 31)));
             unsigned char enc[8];
             unsigned en;
             int rc;
             if (x->n + 16 > MMAX) { break; }
-            en = a_utf_encode(cp, enc);
+            en = ref_utf8(cp, enc);
             opname = "utf_catc";
             vf_log("str %d a_utf_catc U+%X (%u bytes) (len %zu mem %zu)", k, cp, en, x->n, a_str_mem(s));
             cellf(opname, x, 7, tb);
